@@ -2,7 +2,7 @@
 # usage: seedtest.sh <PROP> <N> [check props...]  - validates seed N of /tmp/seed_<PROP> in worktree /tmp/wt_<PROP> and runs checks against it
 export GOFLAGS=-mod=mod GOPROXY=off GOSUMDB=off GOTOOLCHAIN=local
 P=$1; N=$2; shift 2; CHECKS="${@:-$P}"
-WT=/tmp/wt_$P; SD=/tmp/seed_$P
+WT=${SEED_WT_PREFIX:-/tmp/wt_}$P; SD=${SEED_DIR_PREFIX:-/tmp/seed_}$P
 cd $WT || exit 2
 git checkout -q -- . ; git clean -fdq
 # bring worktree to current /repo HEAD
